@@ -335,8 +335,8 @@ func gobLayers(tier string) []Layer {
 	})
 	// hostile: all short byte strings
 	layers = append(layers, Layer{
-		Name:   "J2-all-short-payloads",
-		Units:  258,
+		Name:  "J2-all-short-payloads",
+		Units: 258,
 		Bounds: map[bool]string{false: "every byte string of length 0..3 (16 843 009 payloads) and every 4-byte string starting with the valid version byte 01 (16 777 216 more) decoded into a zero-value receiver: no panic; error or canonical receiver",
 			true: "every byte string of length 0..4 (4 311 810 305 payloads) decoded into a zero-value receiver: no panic; error or canonical receiver"}[thorough4],
 		Run: func(c *Ctx, u int) {
